@@ -496,12 +496,12 @@ func corruptFile(t *simrt.Tape, meta string, forLibrary bool) ([]byte, string, [
 			}
 			descs = append(descs, fmt.Sprintf("truncated to %d", l))
 		case 2: // header length
-			vals := []uint32{0, 4, 28, 31, 33, 64, h + 32, refformat.PageSize, refformat.PageSize + 1, 0xffffffff}
+			vals := []uint32{0, 4, 28, 31, 32, 33, 64, h + 32, h - 32, refformat.PageSize, refformat.PageSize + 1, 0xffffffff}
 			v := vals[t.Draw(len(vals))]
 			put32(28, v)
 			descs = append(descs, fmt.Sprintf("header length %d", v))
 		case 3: // limit
-			vals := []uint32{0, 8, h, d.Limit + 1, d.Limit - 32, uint32(len(data)) + 32, uint32(len(data)) + 3*refformat.PageSize + 8, 0x7fffffff, 0xffffffff}
+			vals := []uint32{0, 8, h, h + 4 + 64, h + 4 + 2044, d.Limit + 1, d.Limit - 32, uint32(len(data)) + 32, uint32(len(data)) + 3*refformat.PageSize + 8, 0x7fffffff, 0xffffffff} // h+4+64, h+4+2044: inside the hash table
 			if forLibrary {
 				// The library honours the recorded limit when it grows the file: a
 				// limit of gigabytes makes it create and map a sparse file of that
@@ -524,7 +524,7 @@ func corruptFile(t *simrt.Tape, meta string, forLibrary bool) ([]byte, string, [
 			descs = append(descs, fmt.Sprintf("bucket %d head %#x", b, v))
 		case 5: // name length
 			r := rec()
-			vals := []uint32{0, 0x00ffffff, 0xffffffff, uint32(len(data)), 5000, uint32(len(r.Name)) + 64}
+			vals := []uint32{0, 0x00ffffff, 0xffffffff, uint32(len(data)), 5000, uint32(len(r.Name)) + 64, uint32(len(data)) - r.Off - 16, uint32(len(data)) - r.Off - 15} // the last two: a name reaching exactly the end of the file, and one byte beyond
 			v := vals[t.Draw(len(vals))]
 			put32(r.Off+8, v)
 			descs = append(descs, fmt.Sprintf("record %#x name length %#x", r.Off, v))
